@@ -48,6 +48,21 @@ func (z dec) clear() {
 	}
 }
 
+// isPow10 reports whether the normalized mantissa x is a power of ten (its
+// most significant word is 10**(_DW-1), all others are zero).
+func (x dec) isPow10() bool {
+	n := len(x)
+	if n == 0 || x[n-1] != _DB/10 {
+		return false
+	}
+	for _, w := range x[:n-1] {
+		if w != 0 {
+			return false
+		}
+	}
+	return true
+}
+
 func (z dec) norm() dec {
 	i := len(z)
 	for i > 0 && z[i-1] == 0 {
